@@ -379,7 +379,7 @@ fn examine(env: &Env, rep: &mut Report, c: &Cand, parms: &EncryptionParameters, 
                 Truth::True => {}
                 Truth::ToleratedRandom => { rep.count("composite_ntt_friendly_modulus", "rejected_NoNTT_although_root_exists"); rep.out_of_precondition += 1; }
                 Truth::Unverifiable => rep.count("composite_ntt_friendly_modulus", &format!("unverifiable_error_{}", err)),
-                Truth::False => env.viol(rep, "validate", &format!("{},reported={},actual={}", sname, err, vkey.first()), "false_error",
+                Truth::False => env.viol(rep, "validate", &format!("reported={}", err), "false_error",
                     format!("rejected with {} but that condition does not hold; reference predicate says {:?} (total bits {})", err, if vkey.reasons.is_empty() { vec!["admissible"] } else { vkey.reasons.clone() }, vkey.total_bits), c),
             }
         }
@@ -804,7 +804,9 @@ fn run_config(env: &Env, rep: &mut Report, r: &RandomCfg, second: bool) {
     let mut infos = Infos::new();
     for &v in r.qs.iter().chain([r.t].iter()) { infos.entry(v).or_insert_with(|| val_info(v)); }
     let c = Cand { scheme: r.scheme, n: r.n, qs: Some(&r.qs), t: r.t, sec: r.sec, expand: r.expand, special: r.special };
-    rep.count("family", &format!("{}:{}", env.grp, r.family));
+    let (fam, tkind) = match r.family.find("+t_") { Some(p) => (&r.family[..p], &r.family[p + 1..]), None => (&r.family[..], "t_fixed") };
+    rep.count("family", &format!("{}:{}", env.grp, fam));
+    rep.count("plain_modulus_kind", &format!("{}:{}", scheme_name(r.scheme), tkind));
     rep.count("degree", &format!("{}:{:06}", env.grp, r.n));
     rep.count("moduli_count", &format!("{}:{:02}", env.grp, r.qs.len()));
     let parms = match build(&c, 0, None) {
